@@ -4,7 +4,7 @@ import json
 import random
 
 from .. import boot
-from ..result import Result, h64
+from ..result import Result, h64, keep_going
 
 ID = 'C17'
 LEVEL = 'exploration'
@@ -345,7 +345,7 @@ def run_shard(spec):
     rng = random.Random(spec['seed'])
     n = 0
     seen = set()
-    while res.elapsed() < spec['budget'] or n < 3:
+    while keep_going(res, spec) or n < 3:
         dseed = rng.getrandbits(48)
         bad = run_db(sim, dseed, res, thorough=spec['tier'] == 'thorough')
         n += 1
